@@ -221,6 +221,31 @@ fn check_encoder(case: &EncCase, p: &mut Probe) -> Check {
     Ok(())
 }
 
+/// many threads building different short codes at the same time, each in its own order: every
+/// matrix built must have the pinned digest
+fn concurrent_cases(t: Tier) -> Vec<EncCase> {
+    (0..t.pick(16u64, 64)).map(|w| EncCase { messages: 0, seed: w }).collect()
+}
+
+fn check_concurrent(case: &EncCase, p: &mut Probe) -> Check {
+    let digests = read_digests(&golden_dir().join("dvbs2").join("DIGESTS"));
+    let short: Vec<_> = STANDARD.iter().filter(|s| s.1 == 16200).collect();
+    let mut sd = splitmix(case.seed ^ 0xd5b2);
+    for round in 0..20 {
+        sd = splitmix(sd);
+        let s = short[(sd % short.len() as u64) as usize];
+        let (code, (n, k, _, _)) = lookup(s.0)?;
+        let h = guarded(|| code.h()).map_err(|e| Fail::new("panic", format!("{}: h() panicked while other threads were building other codes (round {round}): {e}", s.0)))?;
+        ensure!(h.num_cols() == n && h.num_rows() == n - k, "dimensions", "{}: matrix is {} x {}", s.0, h.num_rows(), h.num_cols());
+        let got = columns_digest(n - k, &sorted_columns(&h));
+        let want = digests.get(s.0).ok_or_else(|| Fail::new("golden-missing", format!("{}: no pinned digest", s.0)))?;
+        ensure!(&got == want, "concurrent-build", "{}: the matrix built in round {round}, while other threads were building other codes, differs from the pinned reference", s.0);
+        p.inner += 1;
+    }
+    p.nontrivial();
+    Ok(())
+}
+
 /// writes golden/dvbs2/DIGESTS from the own expansion of the pinned tables (pin time only)
 pub fn pin_digests() -> Result<(), String> {
     let mut out = String::new();
@@ -249,6 +274,13 @@ pub fn property() -> Property {
                 cases: enc_cases,
                 check: check_encoder,
                 exhaustive: true,
+            }),
+            Box::new(EnumSub {
+                name: "concurrent-builds",
+                rule: "16 (thorough 64) workers, each building 20 times one of the ten short codes in its own pseudo-random order, all at the same time: dimensions and pinned digest of every matrix built; inner = matrices built",
+                cases: concurrent_cases,
+                check: check_concurrent,
+                exhaustive: false,
             }),
         ],
         assumptions: vec![
